@@ -145,6 +145,8 @@ class ConcatenatedLazyIndexer(LazyIndexer):
             if stride < 0:
                 # The splitting below assumes that indexers are visited in order of increasing index
                 raise IndexError('ConcatenatedLazyIndexer does not support negative slice steps on first dimension')
+            # A slice that ends before it starts selects nothing, like the empty slice at its start
+            stop = max(start, stop)
             chunks = []
             # Step through indexers that overlap with slice (it's guaranteed that some will overlap)
             for ind in range(find_indexer(start), find_indexer(stop) + 1):
